@@ -195,8 +195,25 @@ def run_req(case, acc):
     wskw = {k: v for k, v in opt.items() if k in ('protocols', 'compress', 'agent')}
     hdrs = [(bytes(a), bytes(b)) for a, b in opt.get('headers', [])]
     w = H.World(H.hs_server([('eof',)]))
-    run = H.drive(w, url=url, ws_kwargs=wskw, headers=hdrs, connect_kwargs=dict(ping_rate=0))
+    ws0 = None
+    if (case['url'] + case['opt']) % 3 == 0:
+        # the application has already called close() / a send on the object before it was ever connected (a defensive
+        # "make sure it is closed", a stop() racing a start()): the first attempt sends its request like any other
+        from .. import env
+        with simnet.Installed(w):
+            ws0 = env.WebSocket(url, **wskw)
+            for h_, v_ in hdrs:
+                ws0.add_header(h_, v_)
+            for call in (lambda: ws0.close(), lambda: ws0.send_text('early')):
+                try:
+                    call()
+                except Exception:   # noqa
+                    pass
+        acc.count2('request', 'first_attempt_after_calls_on_the_unconnected_object')
+    run = H.drive(w, url=url, ws=ws0, ws_kwargs=wskw, headers=hdrs, connect_kwargs=dict(ping_rate=0))
     key, detail = judge_request(w, case, hdrs, acc)
+    if key and ws0 is not None:
+        key += ':first-attempt-after-close-on-the-unconnected-object'
     if key is None:
         # "each connection attempt sends one well-formed request ... custom headers": the next attempt on the object,
         # after the application has added a header (a refreshed token), carries all of them - once
